@@ -174,3 +174,14 @@ def tneutral(rel, fn, why='') -> Variant:
 def roundtrip(rel) -> Variant:
     """Behaviour-neutral: the whole file re-rendered by ast.unparse (all comments dropped, layout changed)."""
     return Variant('neutral', [rel], ast_edit(rel, lambda tree: True), None, 'file re-rendered from its syntax tree')
+
+
+def sub_nc(rel: str, old: str, new: str, **kw):
+    """Like :func:`sub` after deleting every comment-only line of ``rel`` (also inside code
+    templates, where comments are part of the generated text but not of its meaning)."""
+    inner = sub(rel, old, new, **kw)
+
+    def edit(files: dict):
+        files[rel] = re.sub(r"(?m)^[ \t]*#(?!.*''').*\n", '', files[rel])
+        return inner(files)
+    return edit
